@@ -40,6 +40,8 @@ TOP = {
     "f_optpos": ("def f{u}(a: int = 1, /) -> int:\n    return 1\n", [("fun", "f{u}", ["optpos"])]),
     "f_optpos_zero": ("def f{u}(a: int = 0, b: float = 0.0, c: bool = False, /) -> int:\n    return 1\n", [("fun", "f{u}", ["optpos"])]),
     "f_optpos_empty_str": ("def f{u}(a: str = '', /) -> int:\n    return 1\n", [("fun", "f{u}", ["optpos"])]),
+    "f_optpos_none": ("def f{u}(a: int | None = None, /) -> int:\n    return 1\n", [("fun", "f{u}", ["optpos"])]),
+    "f_optpos_none_untyped": ("def f{u}(a=None, /) -> int:\n    return 1\n", [("fun", "f{u}", ["optpos"])]),
     "f_reqkw": ("def f{u}(*, a: int) -> int:\n    return 1\n", [("fun", "f{u}", ["reqkw"])]),
     "f_value": ("def f{u}(a: int = not 1) -> int:\n    return 1\n", [("fun", "f{u}", ["value"])]),
     "f_result_set": ("def f{u}(a: int) -> set[int]:\n    return set()\n", [("fun", "f{u}", ["set"])]),
@@ -55,6 +57,7 @@ TOP = {
     "c_classm": ("class C{u}:\n    @classmethod\n    def cm{u}(cls) -> int:\n        return 1\n\n    def m{u}(self) -> int:\n        return 1\n", [("class", "C{u}", []), ("fun", "cm{u}", ["classm"]), ("fun", "m{u}", [])]),
     "c_dirty_last": ("class C{u}:\n    def m{u}(self) -> int:\n        return 1\n\n    def d{u}(self, a, *args):\n        pass\n", [("class", "C{u}", []), ("fun", "m{u}", []), ("fun", "d{u}", ["param", "variadic", "result"])]),
     "c_prop_set": ("class C{u}:\n    @property\n    def p{u}(self) -> set[int]:\n        return set()\n\n    def m{u}(self) -> int:\n        return 1\n", [("class", "C{u}", []), ("attr", "p{u}", ["set"]), ("fun", "m{u}", [])]),
+    "c_multi_subscripted": ("class C{u}(BaseA, GenBase[int]):\n    def m{u}(self) -> int:\n        return 1\n", [("class", "C{u}", ["multi"]), ("fun", "m{u}", [])]),
     "c_nested_dirty": ("class C{u}:\n    class N{u}:\n        def __init__(self, a) -> None:\n            pass\n\n    def m{u}(self) -> int:\n        return 1\n", [("class", "C{u}", []), ("class", "N{u}", ["param"]), ("fun", "m{u}", [])]),
     "c_inherit_private": ("class _P{u}:\n    def i{u}(self, a: set[int]) -> int:\n        return 1\n\n\nclass C{u}(_P{u}):\n    def m{u}(self) -> int:\n        return 1\n", [("class", "C{u}", []), ("fun", "i{u}", ["set"]), ("fun", "m{u}", [])]),
     # the marker stems from the class's type-parameter list (bound / constraint), not from a member
@@ -63,7 +66,7 @@ TOP = {
     "c_gen_bound_tuple_empty": ("class C{u}(Generic[TCB]):\n    pass\n", [("class", "C{u}", ["tuple"])]),
     "e_enum": ("class E{u}(Enum):\n    A{u} = 1\n", [("enum", "E{u}", [])]),
 }
-HEADER = "from enum import Enum\nfrom typing import Generic, TypeVar\n\nTCB = TypeVar(\"TCB\", covariant=True, bound=tuple[int, str])\nTCS = TypeVar(\"TCS\", set[int], int)\n\n\ndef untyped_call():\n    return object()\n\n\nclass BaseA:\n    pass\n\n\nclass BaseB:\n    pass\n\n\n"
+HEADER = "from enum import Enum\nfrom typing import Generic, TypeVar\n\nTCB = TypeVar(\"TCB\", covariant=True, bound=tuple[int, str])\nTCS = TypeVar(\"TCS\", set[int], int)\nTG = TypeVar(\"TG\")\n\n\nclass GenBase(Generic[TG]):\n    pass\n\n\ndef untyped_call():\n    return object()\n\n\nclass BaseA:\n    pass\n\n\nclass BaseB:\n    pass\n\n\n"
 
 # members inside one class body: name -> (source template indented by 4, [(kind, name, markers)])
 MEMBERS = {
@@ -77,6 +80,7 @@ MEMBERS = {
     "m_args_result": ("    def x{u}(self, *args: int):\n        pass\n", [("fun", "x{u}", ["variadic", "result"])]),
     "m_static_reqkw": ("    @staticmethod\n    def x{u}(*, a: int) -> int:\n        return 1\n", [("fun", "x{u}", ["reqkw"])]),
     "p_clean": ("    @property\n    def x{u}(self) -> int:\n        return 1\n", [("attr", "x{u}", [])]),
+    "p_untyped": ("    @property\n    def x{u}(self):\n        return untyped_call()\n", [("attr", "x{u}", ["attr"])]),
     "p_set": ("    @property\n    def x{u}(self) -> set[int]:\n        return set()\n", [("attr", "x{u}", ["set"])]),
     "n_clean": ("    class X{u}:\n        def y{u}(self) -> int:\n            return 1\n", [("class", "X{u}", []), ("fun", "y{u}", [])]),
     "n_dirty": ("    class X{u}:\n        def __init__(self, a, *args) -> None:\n            pass\n", [("class", "X{u}", ["param", "variadic"])]),
@@ -103,7 +107,7 @@ def run(rep: Report, tier: str, seed: int) -> None:
             u = f"{next(uid):06d}"
             tmpl, es = TOP[name]
             src.append(tmpl.replace("{u}", u))
-            exp += [(kind, nm.replace("{u}", u), frozenset(M[m] for m in marks)) for kind, nm, marks in es]
+            exp += [(kind, nm.replace("{u}", u), frozenset(M[m] for m in marks), name) for kind, nm, marks in es]
         units.append(("top:" + ">".join(seq), "\n\n".join(src), exp))
     mnames = list(MEMBERS)
     depth = 3 if tier == "thorough" else 2
@@ -119,18 +123,18 @@ def run(rep: Report, tier: str, seed: int) -> None:
                 body, exp = "", []
                 ctmpl, cmarks = CTORS[ctor]
                 btmpl, bmarks = BASES[base]
-                exp.append(("class", f"K{u0}", frozenset(M[m] for m in cmarks + bmarks)))
+                exp.append(("class", f"K{u0}", frozenset(M[m] for m in cmarks + bmarks), f"header:{ctor}:{base}"))
                 if ctor != "noctor":
-                    exp.append(("attr", f"i{u0}", frozenset([M["attr"]] if ctor == "ctor_dirty" else [])))
+                    exp.append(("attr", f"i{u0}", frozenset([M["attr"]] if ctor == "ctor_dirty" else []), f"ctor-attr:{ctor}"))
                 for name in seq:
                     u = f"{next(uid):06d}"
                     tmpl, es = MEMBERS[name]
                     body += tmpl.replace("{u}", u) + "\n"
-                    exp += [(kind, nm.replace("{u}", u), frozenset(M[m] for m in marks)) for kind, nm, marks in es]
+                    exp += [(kind, nm.replace("{u}", u), frozenset(M[m] for m in marks), name) for kind, nm, marks in es]
                 text = f"class K{u0}{btmpl.replace('{u}', u0)}:\n" + (ctmpl.replace("{u}", u0) + "\n" if ctmpl else "") + (body if body else ("    pass\n" if not ctmpl else ""))
                 if "_Mix" in btmpl:
                     text = f"class _Mix{u0}:\n    def mixm{u0}(self) -> int:\n        return 1\n\n    def mixn{u0}(self, a: set[int]) -> int:\n        return 1\n\n\n" + text
-                    exp += [("fun", f"mixm{u0}", frozenset()), ("fun", f"mixn{u0}", frozenset([M["set"]]))]
+                    exp += [("fun", f"mixm{u0}", frozenset(), f"inherited:{base}"), ("fun", f"mixn{u0}", frozenset([M["set"]]), f"inherited:{base}")]
                 units.append((f"class:{ctor}:{base}:" + ">".join(seq), text, exp))
     rep.rule = (
         f"module level: all sequences of length 1-2 over {len(names)} declaration letters (functions with each of the flagged features, classes with constructor/attribute/method/property/nested/inherited features, enum) and "
@@ -163,7 +167,7 @@ def run(rep: Report, tier: str, seed: int) -> None:
         for label, src, exp in us:
             rep.case(label, True, sample={"sequence": label, "python": src[:300]} if hash(label) % 2003 == 0 else None)
             mini = {f"{PKG}/__init__.py": "", f"{PKG}/m.py": HEADER + src}
-            for pos, (kind, name, marks) in enumerate(exp):
+            for pos, (kind, name, marks, owner_letter) in enumerate(exp):
                 hits = idx.find(name, kind)
                 if len(hits) != 1:
                     rep.extra["decl_not_found(C03)"] = rep.extra.get("decl_not_found(C03)", 0) + 1
@@ -178,9 +182,9 @@ def run(rep: Report, tier: str, seed: int) -> None:
                 seq = label.split(":")[-1].split(">")
                 feat = f"{kind}@{pos}"
                 if missing:
-                    rep.violation("marker-missing", f"marker-missing:{letter}:{sorted(missing)[0][:28]}|{label if len(seq) <= 1 else seq[0] + '>..'}", {"sequence": label, "declaration": name, "missing": sorted(missing), "observed": sorted(got), "python": src[:600]}, files=mini, src_rel=PKG, opts=opts)
+                    rep.violation("marker-missing", f"marker-missing:{letter}:{sorted(missing)[0][:28]}|{owner_letter}", {"sequence": label, "declaration": name, "missing": sorted(missing), "observed": sorted(got), "python": src[:600]}, files=mini, src_rel=PKG, opts=opts)
                 if extra:
-                    rep.violation("marker-extra", f"marker-extra:{letter}:{sorted(extra)[0][:28]}|{feat}|{label if len(seq) <= 1 else '..'}", {"sequence": label, "declaration": name, "extra": sorted(extra), "observed": sorted(got), "python": src[:600]}, files=mini, src_rel=PKG, opts=opts)
+                    rep.violation("marker-extra", f"marker-extra:{letter}:{sorted(extra)[0][:28]}|{feat}|{owner_letter}", {"sequence": label, "declaration": name, "extra": sorted(extra), "observed": sorted(got), "python": src[:600]}, files=mini, src_rel=PKG, opts=opts)
 
     stats: dict[str, int] = {}
     groups = [(units[i : i + 400], Opts()) for i in range(0, len(units), 400)]
